@@ -49,8 +49,8 @@ pub const CLASSES: [(&str, &str); 32] = [
     ("lineannot", "@@x\n"),
 ];
 
-/// the 16-class core used for length-4 sequences in the quick tier
-pub const CORE: [usize; 16] = [0, 1, 4, 6, 8, 9, 11, 12, 13, 17, 18, 19, 20, 21, 22, 23];
+/// the 17-class core used for length-4 sequences in the quick tier
+pub const CORE: [usize; 17] = [0, 1, 4, 6, 7, 8, 9, 11, 12, 13, 17, 18, 19, 20, 21, 22, 23];
 
 /// reduced alphabets for longer sequences (small-scope tiers): brackets of all three kinds, side-effect blocks, one
 /// prefix / suffix / infix operator, the comma and the blank-line separator - the tokens whose handling in the parser
@@ -152,7 +152,7 @@ fn make_segs(tier: Tier, with_programs: bool) -> Vec<Seg> {
         Seg { name: "k1-len1", count: n },
         Seg { name: "k1-len2", count: n * n * 2 },
         Seg { name: "k1-len3", count: n * n * n * 4 },
-        Seg { name: "k1-len4", count: tier.pick(pow(16, 4) * 8, pow(n, 4) * 8) },
+        Seg { name: "k1-len4", count: tier.pick(pow(17, 4) * 8, pow(n, 4) * 8) },
         Seg { name: "k2-len1", count: a },
         Seg { name: "k2-len2", count: a * a },
         Seg { name: "k2-len3", count: a * a * a },
@@ -1049,7 +1049,7 @@ impl Property for C03 {
     }
     fn meta(&self, tier: Tier) -> Meta {
         Meta {
-            rule: format!("K1: every sequence of 32 token classes (one representative spelling each: values, prefix/suffix/binary operators, brackets, separators, apply-by-identifier forms, annotations) of length <= 3 with every choice of 'nothing or one space' between neighbours, length 4 over {}; K2: every string over a 43-symbol alphabet (one per lexer character class plus 2-, 2- and 4-byte characters, form feed and NUL) of length <= {}; K3: 40 scaling families at 64..1024 repetitions; K4 (small-scope tiers, every spacing choice as in K1): length 5 over {} classes, length 6 over {} classes{} drawn from number, prefix, suffix and infix operator, comma, blank line and the three bracket kinds; K6: without spaces, length 6 over 13 classes (one per class the parser distinguishes: value, prefix, suffix, left-to-right / right-to-left / optional binary operator, three bracket kinds, blank line), length 7 over 9 of them (thorough: all 13, and length 8 over 9); K8: escape sequences and number spellings at the boundaries of what literals can denote, and jump-heavy programs (chains of 2-9 logical operators, else-chain arms, nested expressions); K5: length 5{} over the 10 jump-making classes (number, prefix and infix operator, ?>, |>, &&, parentheses, braces); the well-formed programs of the C01 corpora. Each input goes through lex, parse, a structural tree check, then build into SimpleGarnishData and BasicGarnishData. Verdict: no stage panics, aborts, overflows the stack or exceeds its wall budget (supervisor-confirmed), parse never returns a result whose child links contain a cycle (build would not terminate on it - such a result is not handed to build; results with orphan, shared or out-of-range children are built under the panic guard), K3 time <= 50 ms + 3 us * n^2. Non-trivial = input that gets past lex; distinct by text.", tier.pick("a 16-class core", "all 32 classes"), tier.pick(3, 4), tier.pick(10, 12), tier.pick(8, 10), tier.pick("", ", length 7 over 8 classes,"), tier.pick("", " and 6")),
+            rule: format!("K1: every sequence of 32 token classes (one representative spelling each: values, prefix/suffix/binary operators, brackets, separators, apply-by-identifier forms, annotations) of length <= 3 with every choice of 'nothing or one space' between neighbours, length 4 over {}; K2: every string over a 43-symbol alphabet (one per lexer character class plus 2-, 2- and 4-byte characters, form feed and NUL) of length <= {}; K3: 40 scaling families at 64..1024 repetitions; K4 (small-scope tiers, every spacing choice as in K1): length 5 over {} classes, length 6 over {} classes{} drawn from number, prefix, suffix and infix operator, comma, blank line and the three bracket kinds; K6: without spaces, length 6 over 13 classes (one per class the parser distinguishes: value, prefix, suffix, left-to-right / right-to-left / optional binary operator, three bracket kinds, blank line), length 7 over 9 of them (thorough: all 13, and length 8 over 9); K8: escape sequences and number spellings at the boundaries of what literals can denote, and jump-heavy programs (chains of 2-9 logical operators, else-chain arms, nested expressions); K5: length 5{} over the 10 jump-making classes (number, prefix and infix operator, ?>, |>, &&, parentheses, braces); the well-formed programs of the C01 corpora. Each input goes through lex, parse, a structural tree check, then build into SimpleGarnishData and BasicGarnishData. Verdict: no stage panics, aborts, overflows the stack or exceeds its wall budget (supervisor-confirmed), parse never returns a result whose child links contain a cycle (build would not terminate on it - such a result is not handed to build; results with orphan, shared or out-of-range children are built under the panic guard), K3 time <= 50 ms + 3 us * n^2. Non-trivial = input that gets past lex; distinct by text.", tier.pick("a 17-class core", "all 32 classes"), tier.pick(3, 4), tier.pick(10, 12), tier.pick(8, 10), tier.pick("", ", length 7 over 8 classes,"), tier.pick("", " and 6")),
             assumptions: vec![
                 "a parse result whose child links contain a cycle is reported as a totality violation without executing build on it (build follows child links with a work stack and cannot terminate on a cycle)".into(),
                 "the polynomial-time clause is checked only as a blunt quadratic wall-clock bound on 40 repeat families; a change of exponent below that is not detected".into(),
